@@ -60,8 +60,8 @@ TIERS = {
         ParOpts=["float_g_bnd", "float_mg_bnd"],
         COpts=["c-", "cc+"],
         AllLines=False,
-        n_amp=500,
-        n_var=100,
+        n_amp=400,
+        n_var=80,
         tlc_timeout=600,
     ),
     "thorough": dict(
@@ -70,12 +70,12 @@ TIERS = {
         MesonJ2=[0, 2, 4],
         ScalarJ2=[0, 2],
         BaryonJ2=[1, 2],
-        DecOpts=["pbreak", "pball", "l0", "l1"],
+        DecOpts=["pbreak", "pball", "l0"],  # l1 is in the quick tier
         ParOpts=["float_m", "bnd", "float_g_bnd", "float_mg_bnd"],
         COpts=["c+", "c-", "cc+", "cc-"],
         AllLines=True,
-        n_amp=5000,
-        n_var=800,
+        n_amp=4000,
+        n_var=700,
         tlc_timeout=2400,
     ),
 }
@@ -549,6 +549,7 @@ def stratified(rng, cards, n):
         g.sort(key=lambda i: 0 if cards[i]["kept"] else 1)  # stable: loadable cards first
     out = []
     keys = sorted(groups)
+    rng.shuffle(keys)  # any prefix of the result spreads over shapes, schemes and option kinds
     k = 0
     while len(out) < min(n, len(cards)):
         progressed = False
@@ -662,9 +663,12 @@ def bind(ctx, tf_cards, ids, t, only=None):
     order2 = list(all_idx)
     rng.shuffle(order2)
     n_same = 0
+    amp2_idx = amp_idx if ctx.tier == "thorough" or only is not None else set(sorted(amp_idx)[::2])  # quick: every other one
     for i in order2:
         c, cid = tf_cards[i], ids[i]
-        got = project(make_config(c), amp=(i in amp_idx))
+        got = project(make_config(c), amp=(i in amp2_idx))
+        if i in amp_idx and i not in amp2_idx:
+            got = dict(first[i], **got)  # names / constraints not rebuilt for this card in pass 2
         dk = diff_keys(first[i], got)
         if dk:
             ctx.violation("%s:reload:%s" % (cid, "+".join(dk)), {"first_load": describe(first[i], dk), "later_load": describe(got, dk)})
